@@ -18,22 +18,22 @@ def numberedColor (n : Nat) : Color :=
 def defaultColor : Color := { name := cl! "default", type := .default }
 
 theorem named_colors_wf_tbl :
-    Gen.ansiColorNames.all (fun p => wfColor Variant.fixed (namedColor p)) = true := by
+    Gen.ansiColorNames.all (fun p => wfColor StyleVariant.fixed (namedColor p)) = true := by
   decide +kernel
 
-theorem default_color_wf_tbl : wfColor Variant.fixed defaultColor = true := by
+theorem default_color_wf_tbl : wfColor StyleVariant.fixed defaultColor = true := by
   decide +kernel
 
 /-- Well-formedness of a colour does not depend on the code variant. -/
-theorem wfColor_indep {v v' : Variant} {c : Color} (h : wfColor v c = true) : wfColor v' c = true := by
+theorem wfColor_indep {v v' : StyleVariant} {c : Color} (h : wfColor v c = true) : wfColor v' c = true := by
   rw [wfColor_iff] at h ⊢
   exact ⟨h.1, Color.parse_ok_indep h.2⟩
 
-theorem named_color_wf (v : Variant) {p : List Char × Nat} (hp : p ∈ Gen.ansiColorNames) :
+theorem named_color_wf (v : StyleVariant) {p : List Char × Nat} (hp : p ∈ Gen.ansiColorNames) :
     wfColor v (namedColor p) = true :=
   wfColor_indep (List.all_eq_true.mp named_colors_wf_tbl p hp)
 
-theorem default_color_wf (v : Variant) : wfColor v defaultColor = true :=
+theorem default_color_wf (v : StyleVariant) : wfColor v defaultColor = true :=
   wfColor_indep default_color_wf_tbl
 
 /-- The sixteen system colours by their documented names. -/
@@ -52,7 +52,7 @@ def onlyColor (c : Color) (fg : Bool) : Style :=
     hash := ⟨f, b, some 0, some 0, none⟩, isNull := false, styleDef := none }
 
 /-- A well-formed colour's name, alone or after `on`, parses to exactly that colour. -/
-theorem parse_color_word {v : Variant} {c : Color} (h : wfColor v c = true) :
+theorem parse_color_word {v : StyleVariant} {c : Color} (h : wfColor v c = true) :
     parse v c.name = .ok (onlyColor c true) ∧ parse v (cl! "on " ++ c.name) = .ok (onlyColor c false) := by
   obtain ⟨hne, _, _, _⟩ := wfColor_facts h
   constructor
